@@ -174,7 +174,7 @@ class RObj:
         return Seq(lambda: iter(self._o.tags))
 
 
-SINGLETONS = {"EventInfo"}
+SINGLETONS = {"EventInfo", "MyInfo"}
 
 
 class REvent:
@@ -299,6 +299,8 @@ def evaluate(text: str, ev: Event, lazy=True, minmax="strict", range_mode="norma
         return ("unsupported", "zero division"), log
     except (OverflowError, ValueError) as e:
         return ("unsupported", f"math domain: {e}"), log
+    except (AttributeError, TypeError, NameError) as e:
+        return ("unsupported", f"reference cannot evaluate: {type(e).__name__}: {e}"), log
     finally:
         CFG.lazy, CFG.minmax, CFG.range_mode, CFG.dead_elim = True, "strict", "normal", False
 
